@@ -306,7 +306,11 @@ def wcs_from_points(xy, world_coords, proj_point='center',
     skyrot = models.RotateCelestial2Native(crval[0].deg, crval[1].deg, 180)
     trans = (skyrot | projection)
     projection_x, projection_y = trans(lon, lat)
-    poly = supported_poly_types[polynomial_type](poly_degree)
+    if polynomial_type == "polynomial":
+        poly = supported_poly_types[polynomial_type](poly_degree)
+    else:
+        # the orthogonal families take a degree per axis
+        poly = supported_poly_types[polynomial_type](poly_degree, poly_degree)
 
     fitter = fitting.LevMarLSQFitter()
     with warnings.catch_warnings():
